@@ -32,6 +32,7 @@ func init() {
 			{Name: "failing-target", Run: c07Failing, Workers: 2, QuickS: 30, ThoroughS: 60},
 			{Name: "registered-under-another-name", Run: c07Renamed, Workers: 2, QuickS: 30, ThoroughS: 60},
 			{Name: "shadowed-field-names", Run: c07Shadow, Workers: 1, QuickS: 30, ThoroughS: 60},
+			{Name: "next-to-a-declining-processor", Run: c07Declined, Workers: 2, QuickS: 30, ThoroughS: 60},
 		},
 	})
 }
@@ -799,6 +800,75 @@ func c07Shadow(c *core.Ctx) {
 			c.Report(key, "optional-touched", desc+": the optional point names nothing but was set", cs)
 		default:
 			c.Outcome("shadowed/as-named")
+		}
+		c.Sample(map[string]any{"case": cs})
+	})
+}
+
+// ---- by-name points of a component that an early user instantiation-aware processor declines
+// (its PostProcessAfterInstantiation answers false - what the library's default base does)
+
+type c07DeclCase struct {
+	Present  bool   `json:"named_component_registered"`
+	Kind     string `json:"field_kind"`
+	Optional bool   `json:"optional"`
+	Mode     string `json:"early_processor"`
+}
+
+func c07Declined(c *core.Ctx) {
+	gen := func(yield func(c07DeclCase) bool) {
+		for _, mode := range []string{"declines", "answers-empty-list"} {
+			for _, present := range []bool{true, false} {
+				for _, kind := range []string{"PA", "I1", "ANY"} {
+					for _, opt := range []bool{false, true} {
+						if !yield(c07DeclCase{present, kind, opt, mode}) {
+							return
+						}
+					}
+				}
+			}
+		}
+	}
+	Cases(c, gen, func(c *core.Ctx, cs c07DeclCase) {
+		ft := map[string]reflect.Type{"PA": tPA, "I1": tI1, "ANY": tAny}[cs.Kind]
+		tag := "x"
+		if cs.Optional {
+			tag += ",required=false"
+		}
+		holder := reflect.New(reflect.StructOf([]reflect.StructField{{Name: "F", Type: ft, Tag: reflect.StructTag(fmt.Sprintf(`wire:"%s"`, tag))}}))
+		comps := []any{holder.Interface(), &c11Early{mode: cs.Mode}, scen.BuildInst(scen.Inst{Typ: "TA", Name: "y"}, 1)}
+		var target any
+		if cs.Present {
+			target = scen.BuildInst(scen.Inst{Typ: "TA", Name: "x"}, 0)
+			comps = append(comps, target)
+		}
+		o := scen.Start(scen.StartSpec{Ch: envx.Fixed("", nil), Comps: comps})
+		c.S.Evaluations++
+		c.S.Programs++
+		c.S.States++
+		c.S.Nontrivial++
+		c.S.Transitions += int64(o.Trace.Calls)
+		key := "C07/declined/" + core.Hash(cs)
+		desc := fmt.Sprintf("by-name point `wire:\"%s\"` (%s) next to an early user processor that %s; x registered: %v", tag, cs.Kind, cs.Mode, cs.Present)
+		got := holder.Elem().Field(0).Interface()
+		switch {
+		case o.Panic != "" || o.Abort != "":
+			c.Outcome("declined/panic")
+			c.Report(key, "panic", desc+": "+o.Panic+o.Abort, cs)
+		case cs.Present && o.Err != nil:
+			c.Outcome("declined/spurious-error")
+			c.Report(key, "spurious-error", desc+": start-up failed: "+scen.FirstLine(o.Err), cs)
+		case cs.Present && got != target:
+			c.Outcome("declined/wrong-component")
+			c.Report(key, "wrong-component", fmt.Sprintf("%s: the point holds %s, want exactly the component registered under x", desc, scen.IdOf(got)), cs)
+		case !cs.Present && !cs.Optional && o.Err == nil:
+			c.Outcome("declined/missing-error")
+			c.Report(key, "missing-error", desc+": the required point names nothing but start-up succeeded", cs)
+		case !cs.Present && cs.Optional && (o.Err != nil || (got != nil && scen.IdOf(got) != "-")):
+			c.Outcome("declined/optional")
+			c.Report(key, "optional-touched", fmt.Sprintf("%s: err=%v, field %s", desc, scen.FirstLine(o.Err), scen.IdOf(got)), cs)
+		default:
+			c.Outcome("declined/as-named")
 		}
 		c.Sample(map[string]any{"case": cs})
 	})
